@@ -106,8 +106,31 @@ pub fn handle(ctx: &mut DriverCtx, cmd: &str, req: &Value) -> Result<Value, Stri
             rt::configure(&mut sync_rt, cfg)?;
             let mut async_rt = CoreRuntime::new();
             rt::configure(&mut async_rt, cfg)?;
+            // host events applied to both machines before chunk i: ["press_on"] ["release_on"] ["key", code, press] ["imem", off, v]
+            let events: Vec<Vec<Value>> = req.get("events").and_then(|e| e.as_array()).map(|a| a.iter().map(|x| x.as_array().cloned().unwrap_or_default()).collect()).unwrap_or_default();
+            fn apply(rt: &mut CoreRuntime, evs: Option<&Vec<Value>>) {
+                if let Some(evs) = evs {
+                    for e in evs {
+                        let kind = e[0].as_str().unwrap_or("");
+                        match kind {
+                            "press_on" => rt.press_on_key(),
+                            "release_on" => rt.release_on_key(),
+                            "key" => {
+                                let code = e[1].as_u64().unwrap_or(0) as u8;
+                                let press = e[2].as_bool().unwrap_or(true);
+                                if let Some(kb) = rt.keyboard.as_mut() {
+                                    if press { kb.press_matrix_code(code, &mut rt.memory); } else { kb.release_matrix_code(code, &mut rt.memory); }
+                                }
+                            }
+                            "imem" => rt.memory.write_internal_byte(e[1].as_u64().unwrap_or(0) as u32, e[2].as_u64().unwrap_or(0) as u8),
+                            _ => {}
+                        }
+                    }
+                }
+            }
             let mut sync_err = None;
-            for n in &chunks {
+            for (i, n) in chunks.iter().enumerate() {
+                apply(&mut sync_rt, events.get(i));
                 if let Err(e) = sync_rt.step(*n) {
                     sync_err = Some(e.to_string());
                     break;
@@ -117,7 +140,8 @@ pub fn handle(ctx: &mut DriverCtx, cmd: &str, req: &Value) -> Result<Value, Stri
             let mut runner = AsyncRuntimeRunner::new(rc.clone()).with_slice_cycles(slice);
             let mut async_err = None;
             let mut stats = Vec::new();
-            for n in &chunks {
+            for (i, n) in chunks.iter().enumerate() {
+                apply(&mut rc.borrow_mut(), events.get(i));
                 match runner.run_instructions(*n) {
                     Ok(s) => stats.push(json!([s.instructions_executed, s.cycles_executed])),
                     Err(e) => {
